@@ -64,6 +64,35 @@ TFS = ['hh:mm:ss', 'yyyy-MM-dd', 'process', 'boot', 'hh:mm:ss.zzz', 'yyyy-MM-ddT
 ATTRN = ['u', 'user', 'seq_number', 'v', 'x:y', ' message', 'message ', 'Type', 'a b', 'if', 'u:k', 'w', 'n', 'b']
 # default locales of the sub-run: decimal comma + '.' groups, decimal comma + U+202F groups, lakh grouping, native (Arabic-Indic) digits
 LOCALES = ['de_DE', 'fr_FR', 'en_IN', 'ar_EG']
+# round 8: how the formatter OBJECT under test is obtained: constructed directly, PatternFormatter(pat), or through the fluent
+# front end SimplePipeline().format(pat) (observed by a trailing capturing .handler(); a copy of the message is passed through)
+FLUENT_SHARE = 0.3
+RESERVED_OTHER_CLASS = ('qt', 'pretty')      # names format() maps to other formatter classes (outside C12)
+
+
+def default_message_pattern():
+    """DefaultMessagePattern of messagepatterns.h (what the front end's name "default" stands for)"""
+    import re
+    t = open(os.path.join(vlib.REPO, 'src/qtlogger/messagepatterns.h'), encoding='utf-8').read()
+    m = re.search(r'constexpr char DefaultMessagePattern\[\] = ((?:"[^"\\]*"\s*)+);', t)
+    return ''.join(re.findall(r'"([^"]*)"', m.group(1))) if m else None
+
+
+def is_fluent(c):
+    return c.get('via') == 'f' and c['pat'] not in RESERVED_OTHER_CLASS
+
+
+def model_pat(c):
+    """the pattern the model formats with: the case's own - the front end is transparent - except for the name "default" """
+    if is_fluent(c) and c['pat'] == 'default':
+        return default_message_pattern() or c['pat']
+    return c['pat']
+
+
+def via_text(c):
+    return 'SimplePipeline().format(pattern) + capturing handler (a copy of the message is passed through the pipeline)' if is_fluent(c) else 'PatternFormatter(pattern) constructed directly'
+
+
 LITS = ['[', ']', ' ', '#', 'abc', '%%', '%', ':', '{', '}', ZW, '\u00e9', '\U0001F600', '<', '>', ' | ', '--', 'x', '(', ')',
         '"', ',', '?', '!', ' - ', '%%%%', '% ', '%x', '\n', '\u200c']
 
@@ -274,6 +303,9 @@ class Gen:
             c['twice'] = True
             self.hit('message:formatted-twice')
         self.hit('ntok-items:%d' % min(n, 10))
+        if r.random() < FLUENT_SHARE and pat not in RESERVED_OTHER_CLASS:
+            c['via'] = 'f'
+        self.hit('via:' + ('fluent' if c.get('via') else 'direct'))
         return self.timing(c)
 
     # ---- sequences: ONE formatter object, k >= 2 messages whose sets of present attributes differ ----
@@ -357,6 +389,8 @@ class Gen:
         same_type = r.random() < 0.5
         t0 = r.randrange(5)
         same_text = r.random() < 0.5
+        via = 'f' if (r.random() < FLUENT_SHARE and pat not in RESERVED_OTHER_CLASS) else None
+        self.hit('seq:via=' + ('fluent' if via else 'direct'))
         m0 = r.choice(['m', 'hello', 'payload'])
         ms = []
         for tries in range(6):
@@ -364,6 +398,8 @@ class Gen:
             for j in range(k):
                 c = {'pat': pat, 'type': t0 if same_type else r.randrange(5), 'msg': m0 if same_text else self.value(), 'cat': r.choice(CATS[:3]),
                      'file': r.choice(FILES[:3]), 'fn': r.choice(FUNCS[:3]), 'line': r.choice([42, 1]), 'attrs': self.seq_attrs(), 'seq': j}
+                if via:
+                    c['via'] = via
                 x = r.random()
                 if x < 0.05:
                     c['prefmt'] = r.choice(['FORMATTED', '', '[info] x'])
@@ -402,6 +438,9 @@ class Gen:
                      'attrs': [['u', 's', 'x']] if j % 2 else [], 'seq': j, 'gap': gp}
                 sq.append(c)
             sq[-1]['again'] = 20
+            if len(out) % 2:
+                for c in sq:
+                    c['via'] = 'f'
             out.append(sq)
             self.hit('seq:fixed-time-sequence')
         return out
@@ -415,6 +454,20 @@ class Gen:
                 out.append({'pat': pat, 'type': 4, 'msg': 'm', 'cat': 'default', 'file': 'c.cpp', 'fn': 'void f()', 'line': 42, 'attrs': [],
                             'delay': d, 'again': a})
                 self.hit('timing:fixed')
+        return out
+
+    def fixed_front_cases(self):
+        """always there: documented patterns through the front end, the name "default" (= DefaultMessagePattern) through the front
+        end and as a directly constructed literal pattern, patterns with blanks at the edges, two pipelines one after the other"""
+        out = []
+        base = {'type': 4, 'msg': 'Hello', 'cat': 'net', 'file': '/a/b/c.cpp', 'fn': 'void f()', 'line': 42, 'attrs': [['user', 's', 'admin']]}
+        for pat in ('default', '%{time} [%{category}] %{type}: %{message}', '[%{user?1,1}] %{message}', ' %{message} ', '  ', '%{message}', '%{type}',
+                    '%{time yyyy-MM-dd hh:mm:ss.zzz} [%{type:>8}] [%{category}] %{message}', 'Default', 'default ', '', 'x',
+                    '%{if-category}%{category}: %{endif}%{message}'):
+            for t, cat in ((4, 'net'), (0, 'default'), (1, None)):
+                for via in ('f', None):
+                    out.append(dict(base, pat=pat, type=t, cat=cat, via=via))
+                    self.hit('front:fixed')
         return out
 
     def locale_cases(self, cases, n):
@@ -477,8 +530,11 @@ def impl_line(c):
     # delay = sleep between construction and the observed format() call, again = sleep before the same object formats the same message again
     f += [str(c.get('gap', 0)), str(c.get('delay', 0)), str(c.get('again', 0))]
     # the application-wide default QLocale (QLocale::setDefault) while the object under test works; absent = the start-up default
-    if c.get('locale'):
-        f += [hx(c['locale'])]
+    if c.get('locale') or is_fluent(c):
+        f += [hx(c.get('locale'))]
+    # how the formatter object under test is obtained (round 8): f = SimplePipeline().format(pat), absent = PatternFormatter(pat)
+    if is_fluent(c):
+        f += ['f']
     return ' '.join(f)
 
 
@@ -491,7 +547,7 @@ def model_line(c, impl_out):
     if len(p) != 5 + len(ENVF) + 2 or p[0].startswith('!'):
         return None, None
     out, nul, tid, ptr, fnc = p[0], p[1], int(p[2]), int(p[3]), p[4]
-    f = [hx(c['pat']), str(c['type']), hx(c['msg']), hx(c['cat']), hx(c['file']), hx(c['fn']), fnc, str(c['line']),
+    f = [hx(model_pat(c)), str(c['type']), hx(c['msg']), hx(c['cat']), hx(c['file']), hx(c['fn']), fnc, str(c['line']),
          bin(tid)[2:], bin(ptr)[2:], str(len(c['attrs']))]
     for k, t, v in c['attrs']:
         f += [hx(k), (t + hx(v)) if t == 's' else (t + str(v))]
@@ -517,7 +573,7 @@ def evaluate(cases, impl, model):
             res[i] = {'crashed': True, 'impl_raw': o[:300]}
         else:
             mlines.append(ml); idx.append(i)
-            res[i] = {'crashed': False, 'impl': out}
+            res[i] = {'crashed': False, 'impl': out, 'fluent': is_fluent(c), 'named_default': is_fluent(c) and c['pat'] == 'default'}
             p = o.split(' ')
             res[i]['fresh'] = out if p[-2] == '=' else p[-2][1:]    # what a fresh formatter object gives for the same message object
             res[i]['again'] = out if p[-1] == '=' else p[-1][1:]    # what the same object gives for the same message object when asked again (later)
@@ -542,7 +598,7 @@ def evaluate(cases, impl, model):
 def describe(c, r):
     d = {'case': c, 'pattern': c['pat'], 'message': c['msg'], 'type': c['type'], 'attributes': c['attrs'], 'file': c.get('file'), 'pre_formatted_with': c.get('prefmt'), 'formatted_twice': bool(c.get('twice')),
          'has_zero_width_space': ZW in ((c['msg'] or '') + c['pat'] + ''.join(str(a[2] or '') for a in c['attrs'])),
-         'default_locale': c.get('locale'),
+         'default_locale': c.get('locale'), 'formatter_object_obtained_by': via_text(c),
          'implementation_output': unhx(r.get('impl', '')), 'model_output': unhx(r.get('model', '')),
          'documented_concatenation': unhx(r.get('full', '')), 'active_removing_optional_attributes': r.get('nrem'),
          'implementation_output_hex': r.get('impl'), 'model_output_hex': r.get('model'),
@@ -564,6 +620,8 @@ def shrink(c, impl, model, bad):
             return bad(dict(cur, **{key: ''.join(chars)}))
         cur[key] = ''.join(vlib.shrink_list(list(cur[key]), still, max_steps=250))
     cur['attrs'] = vlib.shrink_list(cur['attrs'], lambda a: bad(dict(cur, attrs=a)), max_steps=40)
+    if cur.get('via') and bad(dict(cur, via=None)):
+        cur['via'] = None          # fails with a directly constructed PatternFormatter as well: the front end is not part of the failing input
     if cur.get('locale') and bad(dict(cur, locale=None)):
         cur['locale'] = None       # fails under the start-up default locale as well: the locale is not part of the failing input
     return cur
@@ -643,7 +701,15 @@ def stateful_members(rs):
 
 def reformat_differs(r):
     """the same formatter object (or, for a case with its own object, another fresh one) asked again for the SAME LogMessage gave another text"""
-    return (not r['crashed']) and (r.get('again', r['impl']) != r['impl'] or ('seq_member' not in r and r.get('fresh', r['impl']) != r['impl']))
+    return (not r['crashed']) and (r.get('again', r['impl']) != r['impl'] or
+                                   ('seq_member' not in r and not r.get('fluent') and r.get('fresh', r['impl']) != r['impl']))
+
+
+def front_differs(r):
+    """a single case whose object came from SimplePipeline().format(pat): a directly constructed PatternFormatter(pat) gave another
+    text (or null-ness) for the very same LogMessage object (same call gave the same text twice, so the text does not drift in time)"""
+    return (not r['crashed']) and bool(r.get('fluent')) and 'seq_member' not in r and not r.get('named_default') \
+        and r.get('again', r['impl']) == r['impl'] and r.get('fresh', r['impl']) != r['impl']
 
 
 def report_reformat(chk, c, impl, model, found_in, count):
